@@ -1162,6 +1162,11 @@ type c08ORun struct {
 	nredis int
 
 	misrouted bool
+
+	// stay: after a long outage (every pooled connection dates from after it) a
+	// call answered without a script is a violation, not a tolerated flap
+	stay bool
+	pace time.Duration
 }
 
 func (x *c08ORun) advance(ms int64) {
@@ -1343,8 +1348,22 @@ func (x *c08ORun) up(calls []c08Call, phase string) bool {
 		x.advance(c.Adv)
 		sec := x.clock.Unix()
 		class := c08Class(&x.ref, sec, c.N)
+		if x.pace > 0 {
+			time.Sleep(x.pace) // not a verdict: lets the recovery monitor's ticks interleave
+		}
+		t0 := time.Now()
 		g, e := x.call(c.N)
+		wall := time.Since(t0)
 		switch {
+		case e == 0 && x.stay && wall < c08FastCall:
+			// "returns to Redis once it answers again": the limiter was back on Redis,
+			// every connection of the client was made after the outage, the server has
+			// answered every command since; an answer computed without asking Redis
+			// means the limiter left again (two buckets refilling side by side)
+			x.m.Violate("C08:outage:left-redis-after-return:"+x.fault, x.desc,
+				"%s call %d (rate %d, burst %d): AllowN(sec=%d, n=%d) = %v was answered in %v without any script execution although the limiter had returned to Redis %d calls earlier and the server has answered every command since the fault was removed (%d PINGs seen)",
+				phase, ci, x.sc.Rate, x.sc.Burst, sec, c.N, g, wall.Round(time.Microsecond), ci, x.srv.pings.Load())
+			return false
 		case e == 1:
 			x.nredis++
 			x.m.Count("outage.redis-call", 1)
@@ -1625,9 +1644,17 @@ func runC08LongOutage(m *vk.M, idx int, fault string, down time.Duration) {
 		return
 	}
 	x.resync()
-	if !x.up([]c08Call{{N: 1}, {N: burst}, {N: 1}, {Adv: 1000, N: 1}}, "after-return") {
+	// the return must last: a run of calls spread over more than a second of real
+	// time, every one answered by the script and equal to the reference bucket
+	x.stay, x.pace = true, 40*time.Millisecond
+	stayCalls := []c08Call{{N: 1}, {N: burst}, {N: 1}, {Adv: 1000, N: 1}}
+	for i := 0; i < 28; i++ {
+		stayCalls = append(stayCalls, c08Call{Adv: int64(r.Intn(3)/2) * 1000, N: 1})
+	}
+	if !x.up(stayCalls, "after-return") {
 		return
 	}
+	m.Count("outage.long.calls-after-return-all-on-redis", int64(len(stayCalls)))
 	m.Case(vk.Digest("long", fault, down, rate, burst, x.obs.String()), x.nresc > 0 && x.nredis > 0)
 }
 
